@@ -237,7 +237,7 @@ def run_inplace(part):
                 rooms = [[divmod(c, w) for c in blk] for blk in p]
                 vals = [k + 1 for k in range(len(rooms))]
                 valued = isinstance(term, S.TValuedRooms)
-                steps = ["as-is", "reverse", "rotate", "swap-first-two", "reverse-cells", "sort"]
+                steps = ["as-is", "reverse", "rotate", "swap-first-two", "reverse-cells", "sort", "move-cell", "move-cell-back"]
                 for step in steps:
                     if step == "reverse":
                         rooms.reverse(); vals.reverse()
@@ -251,6 +251,26 @@ def run_inplace(part):
                     elif step == "sort":
                         order = sorted(range(len(rooms)), key=lambda k: sorted(rooms[k]))
                         rooms[:] = [rooms[k] for k in order]; vals[:] = [vals[k] for k in order]
+                    elif step in ("move-cell", "move-cell-back"):
+                        # the CONTENT changes: one cell goes to a neighbouring room (both rooms stay connected)
+                        done = False
+                        for i, r in enumerate(rooms):
+                            for c in list(r):
+                                rest = [d for d in r if d != c]
+                                if not rest or len(graphref.components(h * w, [(a[0] * w + a[1], b[0] * w + b[1]) for a in rest for b in rest if abs(a[0] - b[0]) + abs(a[1] - b[1]) == 1], [d[0] * w + d[1] for d in rest])) != 1:
+                                    continue
+                                for j, r2 in enumerate(rooms):
+                                    if j != i and any(abs(c[0] - d[0]) + abs(c[1] - d[1]) == 1 for d in r2):
+                                        r.remove(c)
+                                        r2.append(c)
+                                        done = True
+                                        break
+                                if done:
+                                    break
+                            if done:
+                                break
+                        if not done:
+                            continue
                     value = (rooms, vals) if valued else rooms
                     part.count("evaluations")
                     case = {"term": term.name, "height": h, "width": w, "value": [[list(c) for c in r] for r in rooms], "values": list(vals), "inplace_step": step}
